@@ -8,7 +8,7 @@ use crate::{Histogram as HistTrait, Merge};
 // the module's own types for histogram_const.rs)
 
 // is_valid(): exactly what from_ranges accepts (C12 proves that equivalence): no NaN, non-decreasing.
-fn valid_edges(r: &[f64; LEN + 1]) -> bool {
+pub fn valid_edges(r: &[f64; LEN + 1]) -> bool {
     let mut ok = true;
     let mut i = 0;
     while i < LEN + 1 {
@@ -19,7 +19,7 @@ fn valid_edges(r: &[f64; LEN + 1]) -> bool {
     ok
 }
 
-fn any_hist() -> Histogram {
+pub fn any_hist() -> Histogram {
     let range: [f64; LEN + 1] = kani::any();
     let bin: [u64; LEN] = kani::any();
     kani::assume(valid_edges(&range));
@@ -339,3 +339,18 @@ fn iter_items() {
 // The float-valued views (widths, centers, normalized_bins, variance, variances) are decided by RS
 // under exact-real semantics (props/c13.py): comparing two bit-blasted float computations took CBMC
 // more than 100 s per view even for LEN = 1.
+
+
+// ---------------------------------------------------------------- modular: add from the CONTRACT of find
+// find carries a Kani function contract (attributes spliced above it, see props/c06.py):
+//   requires valid_edges(range);  ensures Ok(i) => i < LEN && range[i] <= x < range[i+1],  Err => !(range[0] <= x < range[LEN])
+// proved by proof_for_contract per LEN, and used here through stub_verified: add is then proved for any LEN without
+// executing the binary search again.
+// (impl kani::Arbitrary for SampleOutOfRangeError is appended once to the defining file by the job: stub_verified
+// havocs the Result returned by find)
+pub fn find_post(range: &[f64; LEN + 1], x: f64, r: &Result<usize, SampleOutOfRangeError>) -> bool {
+    match r {
+        Ok(i) => *i < LEN && range[*i] <= x && x < range[*i + 1],
+        Err(_) => !(range[0] <= x && x < range[LEN]),
+    }
+}
